@@ -18,7 +18,9 @@ EXPLANATION = (
     "(R4) the cap min(b, bound) is applied on every path of DefaultProblemData::new, independent of "
     "presolve_enable; (R5) the presolver exists only if enabled and something was reduced; (R2, cone cursor) reduce_cones moves "
     "its marker cursor past every cone on every path; (R7) select_rows gives every column - empty or not - its start pointer "
-    "and every kept entry its renumbered row, value and count.")
+    "and every kept entry its renumbered row, value and count."
+    " R2 also requires that the drop test compares the entry b[idx] itself (not |b|), with comparisons normalised to one orientation."
+    " R2 also: the row cursor into b starts at 0 and only advances - by one per examined row, by nvars over a skipped cone.")
 ASSUMPTIONS = ['rustc MIR construction and trait resolution are correct',
                'CscMatrix::select_rows / select keep the order of the retained rows (C16 territory)']
 
@@ -84,9 +86,13 @@ def bound_capture(rep, F, E, tag):
         for bi, si, st in f.assignments():
             rv = st['rv']
             if rv['k'] == 'agg' and rv['ak']['a'] == 'adt' and last_seg(strip_generics(rv['ak']['adt'])) == 'Presolver':
+                ok = True
+                if 'infbound' not in rv['ak']['fields']:
+                    R.bad('stored' + tag, 'Presolver no longer stores the bound read at construction (no field infbound): the value written at dropped rows '
+                          'cannot be the bound in force when the solver was built', f.loc(st['sp']))
+                    continue
                 i = rv['ak']['fields'].index('infbound')
                 src = canon(f.sym_operand(rv['ops'][i]))
-                ok = True
                 R.check(src == 'get_infinity()', 'stored' + tag, 'Presolver.infbound is initialised from %s' % src, f.loc(st['sp']))
                 i2 = rv['ak']['fields'].index('mfull')
                 R.check(canon(f.sym_operand(rv['ops'][i2])) == 'len(arg2)', 'mfull' + tag, 'mfull initialised from %s' % canon(f.sym_operand(rv['ops'][i2])), f.loc(st['sp']))
@@ -111,6 +117,17 @@ def drop_condition(rep, F, tag):
         leaves = Walker(f, cut_loops=True).leaves()
         n_drop = 0
         thr_keys = set()
+        def norm(val):
+            # bring every comparison of b[idx] with the bound into the form  op(threshold, b[idx]) : truth
+            out = dict(val)
+            for k, v in val.items():
+                if k[:3] in ('lt(', 'le(') and 'arg2[' in k and 'arg3' in k:
+                    a, b = split2(k[3:-1])
+                    if 'arg2[' in a and 'arg2[' not in b:
+                        del out[k]
+                        out['%s(%s, %s)' % ('le' if k[:2] == 'lt' else 'lt', b, a)] = 1 - v
+            return out
+        leaves = [(norm(val), ret, ev, tr) for val, ret, ev, tr in leaves]
         for val, ret, ev, tr in leaves:
             stores = [(e[1], e[2]) for e in ev if e[0] == 'store' and e[1].startswith('index_mut(')]
             cone_k = [k for k in val if k.startswith('discr(') and k.endswith('@Some.0)')]
@@ -134,6 +151,9 @@ def drop_condition(rep, F, tag):
             op = k[:2]
             lhs, rhs = split2(k[3:-1])
             # lhs is the threshold, rhs is b[idx]
+            R.check(re.fullmatch(r'arg2\[var:\w+\]', rhs) is not None, 'tested-entry|%s%s' % (k, tag),
+                    'the drop test compares %s with the bound: it must compare the entry b[idx] itself (a row with b <= -bound is a binding '
+                    'constraint, not an infinite bound)' % rhs, f.loc())
             if op == 'le' and lhs == 'arg3':
                 R.ok('threshold|%s%s' % (k, tag))
                 continue
@@ -170,13 +190,33 @@ def drop_condition(rep, F, tag):
             for b in drop_blocks:
                 inner = [h for h, body in loops.items() if b in body]
                 h = min(inner, key=lambda x: len(loops[x])) if inner else None
-                if not f.dominates(b, dec[0]) or (h is not None and f.paths_exist_avoiding(b, h, [dec[0]])):
-                    ok = False
-            # and the decrement happens only after a drop
-            for b in dec:
-                if not any(f.dominates(d, b) for d in drop_blocks):
+                d = dec[0]
+                # the marker store and the decrement always happen together, in either order
+                fwd = f.dominates(b, d) and not (h is not None and f.paths_exist_avoiding(b, h, [d]))
+                bwd = f.dominates(d, b) and not (h is not None and f.paths_exist_avoiding(d, h, [b]))
+                if not (fwd or bwd):
                     ok = False
         R.check(ok, 'mreduced-dec' + tag, 'mreduced is not decremented exactly once per dropped row', f.loc())
+        # the row cursor into b: starts at 0, moves by one per examined row and by nvars(cone) over a skipped cone - nothing else
+        ups = []
+        for bi, si, st in f.assignments():
+            if st['p']['p'] or f.local_name(st['p']['l']) != 'idx':
+                continue
+            ups.append((canon(f.sym_rvalue(st['rv'])).replace('withoverflow', '').replace(').0', ')'), bi))
+        allowed = lambda v: v == '0_usize' or v == 'add(var:idx, 1_usize)' or re.fullmatch(r'add\(var:idx, (nvars\(.*\)|var:numel_cone)\)', v) is not None
+        R.check(bool(ups) and all(allowed(v) for v, b in ups), 'row-cursor|updates' + tag,
+                'the row cursor into b is updated by %s: it must start at 0 and only ever advance (by 1 per examined row, by nvars over a skipped cone) - '
+                'a reset makes later nonnegative cones test the wrong rows' % sorted(set(v for v, b in ups)), f.loc())
+        for val, ret, ev, tr in leaves:
+            if ret[0] != 'cut':
+                continue
+            cone_k2 = [k for k in val if k.startswith('discr(') and k.endswith('@Some.0)')]
+            inner_it = [k for k in val if k.startswith('discr(next(into_iter(Range::Range(0_usize')]
+            moved = [v for v, b in ups if b in tr and v != '0_usize']
+            if cone_k2 and val[cone_k2[0]] != nn and not inner_it:
+                R.check(any('nvars(' in v or 'numel_cone' in v for v in moved), 'row-cursor|skip' + tag, 'a skipped cone does not advance the row cursor by its size (updates on the path: %s)' % moved, f.loc())
+            if inner_it and val[inner_it[0]] == 1:
+                R.check('add(var:idx, 1_usize)' in moved, 'row-cursor|row' + tag, 'an examined row does not advance the row cursor (updates on the path: %s)' % moved, f.loc())
         # reduce_cones: only NonnegativeConeT is resized
         rc = F.one(name='reduce_cones', adt='Presolver')
         for val, ret, ev, tr in Walker(rc, cut_loops=True).leaves():
